@@ -7,8 +7,8 @@
    for every tick-aligned beat strictly between event beats and outside the union of the warps.
    Left to the correspondence on the dyadic family (exact floats), with the oracle stating them directly:
    the round trip on event beats, the warp-elapse clause as a statement about timing data, global
-   monotonicity in time, the half-tick bound. *)
-From Coq Require Import List ZArith QArith Bool Sorting.Sorted.
+   monotonicity in time (the half-tick bound is C12_half_tick, in beats). *)
+From Coq Require Import List ZArith QArith Qabs Bool Sorting.Sorted.
 From SV Require Import Sx Beat Engine Proofs.EngineFacts Proofs.Hittable Proofs.TimeLaw Proofs.BeatAt.
 Import ListNotations.
 Open Scope Q_scope.
@@ -74,6 +74,22 @@ Theorem C12_roundtrip_interior : forall td b0 v0 rest, dom td -> td_bpms td = (b
   fst (beat_at_raw (sts td v0) (init_state td v0) (time_at (sts td v0) (init_state td v0) b tSTOP) q) == b.
 Proof. exact roundtrip_interior. Qed.
 Print Assumptions C12_roundtrip_interior.
+
+(* the half-tick bound: the answer lies within 1/96 beat of the exact beat position of the asked time *)
+Theorem C12_half_tick : forall pre s post d t q,
+  times_sorted (pre ++ s :: post) -> is_pause_tag (s_tag s) = false ->
+  s_time s < t -> (forall x, In x post -> t < s_time x) ->
+  Qabs (fst (beat_at_raw (pre ++ s :: post) d t q) - (s_beat s + (t - s_time s) / 60 * s_bpm s)) <= 1 # 96.
+Proof. exact beat_at_half_tick. Qed.
+Print Assumptions C12_half_tick.
+
+(* between the same two states the answer never decreases as time increases (the rounding is monotone) *)
+Theorem C12_monotone_local : forall pre s post d t1 t2 q,
+  times_sorted (pre ++ s :: post) -> 0 < s_bpm s ->
+  s_time s < t1 -> t1 <= t2 -> (forall x, In x post -> t2 < s_time x) ->
+  fst (beat_at_raw (pre ++ s :: post) d t1 q) <= fst (beat_at_raw (pre ++ s :: post) d t2 q).
+Proof. exact beat_at_monotone_local. Qed.
+Print Assumptions C12_monotone_local.
 
 (* rounding to the tick does not depend on how the rational is written, and fixes every tick *)
 Theorem C12_round_well_defined : forall a b, a == b -> tick_round a == tick_round b.
